@@ -17,6 +17,18 @@ CHECKS = {
         "trusts vf/cborlite.py; URIs non-empty and comma-free; a ValueError for >0xFFFF padding is an allowed rejection",
         "DESIGN.md section 5 / C10",
     ),
+    "C02": (
+        "translation_validation",
+        "differential testing of create against an independent reference encoder over grammar-generated descriptions and a complete single-construct sweep",
+        "Every generated description (whole language, arbitrary member order, width-boundary integers, nesting) and every case of the "
+        "single-construct sweep (every name x value shape x width boundary, enumerated completely) is encoded by the tool and by "
+        "vf/refenc.py (own CBOR codec, own registry tables, hashlib) and compared byte for byte; a mismatch is located to the first "
+        "differing node. programs = descriptions compared; disagreements_checked = mismatches found and investigated (0 on a tree "
+        "where the property holds).",
+        "trusts the reading of the drafts/RFCs fixed in vf/refenc.py + vf/registry.py (DESIGN.md App. C); F7a forms excluded by the property; "
+        "tool-specific codes and RFC 9052 choice points listed in the evidence",
+        "DESIGN.md section 5 / C02",
+    ),
 }
 
 NOT_YET = "check under construction in this session; not claimed until its quick command is registered here"
